@@ -210,8 +210,9 @@ def run_obligations(work, obs, batch=24, second_chance=True, log=None):
                     fa = mod.functions["k%d_alt%d" % (li, j)]
                     same = ir.normal_form(mod, fa) == ob.nf_cnl
                     if not same:
-                        ga, gc = gate.gated(mod, fa), gate.gated(mod, mod.functions["k%d_cnl" % li])
-                        same = ga == gc or gate.expand(ga) == gate.expand(gc)
+                        with gate.LOCK:
+                            ga, gc = gate.gated(mod, fa), gate.gated(mod, mod.functions["k%d_cnl" % li])
+                            same = ga == gc or gate.expand(ga) == gate.expand(gc)
                 except Exception:
                     same = False
                 if same:
@@ -225,6 +226,11 @@ def run_obligations(work, obs, batch=24, second_chance=True, log=None):
 
 
 def _gated_match(mod, li, ob, pname):
+    with gate.LOCK:
+        return _gated_match_locked(mod, li, ob, pname)
+
+
+def _gated_match_locked(mod, li, ob, pname):
     """second normal form: gated expressions (loop-free functions only)"""
     try:
         g = gate.gated(mod, mod.functions["k%d_cnl" % li])
